@@ -1,5 +1,6 @@
 import CE.Cbe.RoundTrip
 import CE.Cbe.StreamRoundTrip
+import CE.Cbe.ItemRoundTrip
 import CE.Canon
 /-
   C01 — CBE encode/decode preserves every rules-valid event stream.
@@ -23,10 +24,16 @@ import CE.Canon
     carries the same data (`canon`) — nothing lost, nothing added.  By induction over the stream
     (CE/Cbe/StreamRoundTrip.lean: `stream_roundtrip`), each step a prefix-code lemma "one decoder
     step reads back exactly this event and leaves the rest of the input untouched".
+  * `chunked_document_roundtrip` — the same for documents that also contain arrays SENT IN CHUNKS
+    (`arrayBegin`, any number of `arrayChunk n more`, the data of each chunk in any number of
+    `arrayData` pieces; strings, resource ids and every byte-multiple typed array), media objects and
+    custom binary data (begin event with the media type / type number, then chunks): this is the part of
+    the encoder with state (the first chunk decides between the short header and header + chunk
+    length) and of the decoder that loops over chunk headers (CE/Cbe/ItemRoundTrip.lean).
   * the per-event prefix-code round trips for integers, with arbitrary following bytes
     (`…_partial` below).
-  Not proved (`_partial`): doubles in the float32 subnormal range, times, bit arrays, media, custom types and
-  arrays sent in several chunks (the encoder's array state) are carried by the CBE.ENC / CBE.DEC correspondence and the round-trip
+  Not proved (`_partial`): doubles in the float32 subnormal range, times, bit arrays, remote references and
+  the one-event forms of media / custom binary (same bytes as begin + one chunk) are carried by the CBE.ENC / CBE.DEC correspondence and the round-trip
   oracle of `bin/check C01` only.
 -/
 namespace CE.Props.C01
@@ -75,6 +82,37 @@ theorem structural_encoding_determines_data (a b : List Ev) (ha : a.all simple =
   rw [hda] at hdb
   have : ba = bb := by injection hdb
   rw [← hca, ← hcb, this]
+
+/-- every document of structural events and arrays sent in chunks round-trips through CBE -/
+theorem chunked_document_roundtrip (items : List Item) (h : ∀ i ∈ items, i.ok) :
+    let doc := Ev.beginDoc :: Ev.version 0 :: (items.flatMap Item.events ++ [Ev.endDoc])
+    (encode doc).2 = none ∧
+    ∃ back, decode (encode doc).1 = (back, none) ∧ canon false back = canon false doc :=
+  items_document_roundtrip items h
+
+/-- non-vacuity: a string sent as three chunks (the second empty, the third in two pieces) inside a
+    list, followed by a u16 array sent as one chunk of 20 elements -/
+example : ∀ i ∈ [Item.ev .list,
+      Item.arr .string [⟨2, [[104, 105]]⟩, ⟨0, []⟩] ⟨3, [[97], [98, 99]]⟩,
+      Item.arr .u16 [] ⟨20, [List.replicate 40 7]⟩,
+      Item.media [97, 47, 98] [⟨1, [[1]]⟩] ⟨2, [[2, 3]]⟩,
+      Item.custom 77 [] ⟨0, []⟩,
+      Item.ev .endContainer], i.ok := by
+  intro i hi
+  simp only [List.mem_cons, List.mem_nil_iff, or_false] at hi
+  rcases hi with rfl | rfl | rfl | rfl | rfl | rfl
+  · rfl
+  · refine ⟨rfl, ?_, by decide, by decide⟩
+    intro c hc
+    simp only [List.mem_cons, List.mem_nil_iff, or_false] at hc
+    rcases hc with rfl | rfl <;> exact ⟨by decide, by decide⟩
+  · exact ⟨rfl, by simp, by decide, by decide⟩
+  · refine ⟨by decide, ?_, by decide, by decide⟩
+    intro c hc
+    simp only [List.mem_cons, List.mem_nil_iff, or_false] at hc
+    subst hc; exact ⟨by decide, by decide⟩
+  · exact ⟨by decide, by simp, by decide, by decide⟩
+  · rfl
 
 /-- non-vacuity: a nested document with a marker, a reference, a record, integers of several
     widths and signs, a comment and padding satisfies the hypothesis -/
